@@ -181,14 +181,17 @@ def step (line : String) : String :=
     match Wire.parseAnnotation? ann, mkEnv? res static, parseOpts? opts with
     | some a, some env, some o =>
       let T := if tbl == "nist" then Spec.nist else Spec.lib
-      let ad : Option (Option (List Nat)) := match o.adducts with
+      let adv : Option ModVal := match a.adducts, o.adducts with
+        | some (m :: _), none => some m.val
+        | _, x => x
+      let ad : Option (Option (List Nat)) := match adv with
         | none => some none
         | some (.str s) => some (some (codes s))
         | some _ => none
       match ad with
       | none => "none"
       | some ad =>
-        match Spec.specMass T env a o.ion (o.charge.getD 0) o.mono o.isotope o.loss ad with
+        match Spec.specMass T env a o.ion ((match o.charge with | some c => some c | none => a.charge).getD 0) o.mono o.isotope o.loss ad with
         | some v => "ok " ++ showRat v
         | none => "none"
     | _, _, _ => "bad-op"
